@@ -171,6 +171,7 @@ type world struct {
 	globalHit string // kind of the global fault that fires on the current call
 	globalNow string
 	inReconcile bool
+	dead        bool
 	counter int
 	opts    worldCase
 	eds     *edsctrl.Reconciler
@@ -285,12 +286,26 @@ func (w *world) beforeWrite() {
 		w.globalHit = g.Kind
 	}
 	w.mu.Unlock()
-	if w.faults != nil && w.faults.StopAt > 0 && n == w.faults.StopAt {
-		panic(stopSignal{})
+	if (w.faults != nil && w.faults.StopAt > 0 && n == w.faults.StopAt) || (hit && g.Kind == "stop_before") {
+		w.die()
 	}
-	if hit && g.Kind == "stop_before" {
-		panic(stopSignal{})
-	}
+}
+
+// die: the process stops here. Calls may come from worker goroutines, where a panic cannot be recovered by
+// the caller of Reconcile, so a stop is emulated: from now on no call of this reconcile reaches the store
+// (each returns an error, unrecorded); when Reconcile returns the step is marked stopped, its result is
+// discarded and fresh controller instances (empty memory) take over.
+func (w *world) die() {
+	w.mu.Lock()
+	w.dead = true
+	w.mu.Unlock()
+}
+
+func (w *world) isDead() bool {
+	w.mu.Lock()
+	defer w.mu.Unlock()
+
+	return w.dead
 }
 
 func (w *world) afterWrite() {
@@ -301,11 +316,8 @@ func (w *world) afterWrite() {
 		w.globalHit = ""
 	}
 	w.mu.Unlock()
-	if w.faults != nil && w.faults.StopAfter > 0 && n == w.faults.StopAfter {
-		panic(stopSignal{})
-	}
-	if hit {
-		panic(stopSignal{})
+	if (w.faults != nil && w.faults.StopAfter > 0 && n == w.faults.StopAfter) || hit {
+		w.die()
 	}
 }
 
@@ -391,7 +403,13 @@ func (w *world) build(objs []client.Object) {
 	_ = v1alpha1.AddToScheme(w.scheme)
 	funcs := interceptor.Funcs{
 		Create: func(ctx context.Context, c client.WithWatch, obj client.Object, opts ...client.CreateOption) error {
+			if w.isDead() {
+				return errInjected
+			}
 			w.beforeWrite()
+			if w.isDead() {
+				return errInjected
+			}
 			if obj.GetName() == "" && obj.GetGenerateName() != "" {
 				obj.SetName(w.nextName(obj.GetGenerateName()))
 			}
@@ -413,7 +431,13 @@ func (w *world) build(objs []client.Object) {
 			return err
 		},
 		Delete: func(ctx context.Context, c client.WithWatch, obj client.Object, opts ...client.DeleteOption) error {
+			if w.isDead() {
+				return errInjected
+			}
 			w.beforeWrite()
+			if w.isDead() {
+				return errInjected
+			}
 			fail := w.shouldFail("delete", obj)
 			w.record("delete", obj, fail, false)
 			if fail && !w.lost() {
@@ -448,7 +472,13 @@ func (w *world) build(objs []client.Object) {
 			return err
 		},
 		Update: func(ctx context.Context, c client.WithWatch, obj client.Object, opts ...client.UpdateOption) error {
+			if w.isDead() {
+				return errInjected
+			}
 			w.beforeWrite()
+			if w.isDead() {
+				return errInjected
+			}
 			fail := w.shouldFail("update", obj)
 			w.record("update", obj, fail, true)
 			if fail && !w.lost() {
@@ -463,7 +493,13 @@ func (w *world) build(objs []client.Object) {
 			return err
 		},
 		Patch: func(ctx context.Context, c client.WithWatch, obj client.Object, patch client.Patch, opts ...client.PatchOption) error {
+			if w.isDead() {
+				return errInjected
+			}
 			w.beforeWrite()
+			if w.isDead() {
+				return errInjected
+			}
 			fail := w.shouldFail("patch", obj)
 			w.record("patch", obj, fail, true)
 			if fail && !w.lost() {
@@ -478,7 +514,13 @@ func (w *world) build(objs []client.Object) {
 			return err
 		},
 		SubResourceUpdate: func(ctx context.Context, c client.Client, sub string, obj client.Object, opts ...client.SubResourceUpdateOption) error {
+			if w.isDead() {
+				return errInjected
+			}
 			w.beforeWrite()
+			if w.isDead() {
+				return errInjected
+			}
 			fail := w.shouldFail("status_update", obj)
 			w.record("status_update", obj, fail, true)
 			if fail && !w.lost() {
@@ -782,6 +824,15 @@ func (w *world) runOp(op opSpec) (so stepOut) {
 				res, err = w.pt.Reconcile(ctx, req)
 			default:
 				err = fmt.Errorf("unknown controller %q", op.Ctrl)
+			}
+			if w.isDead() {
+				w.mu.Lock()
+				w.dead = false
+				w.mu.Unlock()
+				so.Stopped = true
+				w.freshControllers()
+
+				return
 			}
 			so.Requeue, so.After = res.Requeue, int64(res.RequeueAfter)
 			if err != nil {
